@@ -531,3 +531,57 @@ concatenate2 = REG.add(Contract(
                    ("raise ValueError", "Cannot concatenate chunks of different data types"),
                    ("raise ValueError", "chunks with different run ids")],
 ))
+
+
+# --------------------------------------------------------------------------------------
+# Chunk.merge (two chunks of one kind): same span, same number of rows, refused otherwise
+# --------------------------------------------------------------------------------------
+def _merge_arrs_model(eng, args, kw, st, fr, k, node):
+    """strax.merge_arrs([a, b], dtype=...): ASSUMED contract - an array with as many rows as its (equally long) parts whose
+    time / endtime are those of the LAST part (on field collisions the later array wins)"""
+    parts = args[0]
+    if not (isinstance(parts, list) and len(parts) == 2):
+        raise Unsupported("merge_arrs of other than two arrays")
+    eng.assumptions.add("assumed contract of strax.merge_arrs for two equally long arrays (time / endtime of the last array win)")
+    a, b = parts
+    res, st = _mk(eng, eng.new_base("merged"), INTERVALS, st, set())
+    S = eng.S
+    rv, bv = eng.resolve(res, st.heap), eng.resolve(b, st.heap)
+    st = st.assume(S.b(rv.n == bv.n))
+    for f in ("time", "endtime"):
+        st = st.assume(S.b(S.forall(0, bv.n, lambda j: rv.f(f, j) == bv.f(f, j))))
+    st = st.assume(S.b(S.eq(S.arr_dtype(rv), S.call("fn:merged_dtype_of", S.v(eng.to_v(kw.get("dtype", PNONE)))))))
+    return k(res, st)
+
+
+def _merged_dtype(eng, args, kw, st, fr, k, node):
+    return k(Opq(eng.fresh("merged_dtype", "V")), st)
+
+
+def _cm2_ens(S, a, r):
+    c0, c1 = a.chunks
+    return [("the merged chunk covers the common time range and carries the common kind and run id",
+             S.And(r.start == c0.start, r.end == c0.end, r.start == c1.start, r.end == c1.end, S.eq(r.data_kind, c0.data_kind), S.eq(r.run_id, c0.run_id))),
+            ("it has one row per input row, at the position of that row (time and endtime of the last dependency)",
+             S.And(r.data.n == c0.data.n, r.data.n == c1.data.n,
+                   S.forall(0, r.data.n, lambda j: S.And(r.data.f("time", j) == c1.data.f("time", j), r.data.f("endtime", j) == c1.data.f("endtime", j))))),
+            ("only chunks of one kind, one run, equal length and identical time range are merged",
+             S.And(S.eq(c0.data_kind, c1.data_kind), S.eq(c0.run_id, c1.run_id), c0.data.n == c1.data.n, c0.start == c1.start, c0.end == c1.end))]
+
+
+def _cm2_raise(S, a):
+    c0, c1 = a.chunks
+    return S.Not(S.And(S.eq(c0.data_kind, c1.data_kind), S.eq(c0.run_id, c1.run_id), c0.data.n == c1.data.n, c0.start == c1.start, c0.end == c1.end))
+
+
+merge2 = REG.add(Contract(
+    F, "Chunk.merge", variant="two chunks",
+    params=dict(cls="V", chunks=(CHUNK, CHUNK), data_type="V"),
+    requires=lambda S, a: chunk_wf(S, a.chunks[0]) + chunk_wf(S, a.chunks[1]),
+    ensures=_cm2_ens,
+    raises={"ValueError": _cm2_raise, "ValueError:runs": lambda S, a: S.true},
+    calls={"cls": chunk_init_rows, "strax.merge_arrs": _merge_arrs_model, "strax.merged_dtype": _merged_dtype,
+           "_merge_superrun_in_chunk": _merge_ann, "_merge_subruns_in_chunk": _merge_ann, "max": Abstract(pure=True), "sorted": Abstract(pure=True)},
+    static=True,
+    expected_dead=[("raise ValueError", "Need at least one chunk to merge")],
+))
